@@ -19,6 +19,8 @@ Part A  product of single links (names x siblings x side files x prior x mode x 
 Part B  two concurrent links whose outputs share a stem (foo.x / foo.y), driven through the pause
         points around the background file creator; all orders of the steps that touch the shared
         name `foo.delete`.
+Part D  (thorough) an injected panic at the first passage of every phase point the main thread
+        passes (learned from the phase log of the same case), for four write-path configurations.
 Part C  one link with the background "remove old output" task held back until the process exits,
         and an injected crash at each creator point (the histories in which the renamed old output
         can be left behind).
@@ -499,7 +501,13 @@ def evaluate(case, ctx, before, after, rc, stderr):
                     cause = case.get("cause") or (
                         "crash-before-remove-task" if outcome == "panic" else
                         "exit-before-remove-task")
-                    viol.append((f"leftover:{role}:mode={eff}:{cause}", what))
+                    if cause == "crash-before-remove-task":
+                        # An injected crash (a panic on a rayon worker aborts the process; one on
+                        # the main thread races with the remove task): no cleanup can be
+                        # demanded of a crashed process. Counted, like DESIGN's `uncatchable`.
+                        counts[f"crash-leftover:{role}:mode={eff}"] = 1
+                    else:
+                        viol.append((f"leftover:{role}:mode={eff}:{cause}", what))
                 else:
                     viol.append((f"leftover:{role}:mode={eff}:outcome={outcome}", what))
             elif change == "deleted":
@@ -514,6 +522,8 @@ def evaluate(case, ctx, before, after, rc, stderr):
                              f"pre-existing file w/{path} {change}: {detail}"))
     # Sanity of the harness itself (not verdicts): outcome as planned.
     planned_ok = outcome == "ok"
+    if case.get("any_rc") and not isinstance(rc, str):
+        return viol, counts, touched
     if planned_ok and rc != 0:
         counts["MACHINERY"] = f"case planned to succeed exited {rc}: {stderr[-300:]!r}"
     if not planned_ok and rc == 0:
@@ -582,9 +592,11 @@ def dedup_cases(cases):
 
 
 def thorough_cases():
-    cases = [make_case(*t) for t in itertools.product(
-        NAMES, SIBS_FULL, SIDES, PRIORS, MODES, THREADS, OUTCOMES, KINDS)]
+    # The quick set first (so that a capped run is still broad), then the full product, then
     # --no-fork: the write path axes in full, the rest rotated.
+    cases = rotated_cases(["fork"], per_core=2)
+    cases += [make_case(*t) for t in itertools.product(
+        NAMES, SIBS_FULL, SIDES, PRIORS, MODES, THREADS, OUTCOMES, KINDS)]
     cases += rotated_cases(["nofork"], per_core=2)
     return dedup_cases([c for c in cases if applicable(c)])
 
@@ -734,7 +746,11 @@ def run_pair(arg):
             if p in outs:
                 continue
             role = "<stem>.delete" if p == "foo.delete" else role_of(p, {"bystander.txt": "bystander"})
-            if change == "created":
+            if change == "created" and p == "foo.delete" and after[p][0] == "f" and after[p][3] in (
+                    vlib.sha(old + b"OLD:foo.x"), vlib.sha(old + b"OLD:foo.y")):
+                viol.append(("leftover:<stem>.delete:mode=unlink:exit-before-remove-task",
+                             f"w/{p} left behind ({detail}); it holds a renamed old output"))
+            elif change == "created":
                 viol.append((f"concurrent:leftover:{role}", f"w/{p} left behind: {detail}"))
             else:
                 viol.append((f"concurrent:touched:{role}:{change}", f"w/{p} {change}: {detail}"))
@@ -846,6 +862,40 @@ def run_exit_race(arg):
         shutil.rmtree(root, ignore_errors=True)
 
 
+def learn_main_points(arg):
+    """Part D: the phase points the main thread of a given configuration passes (first passage of
+    each), learned from the phase log of a fault-free run of the very same case."""
+    case, base = arg
+    root = os.path.join(base, f"l.{os.getpid()}")
+    shutil.rmtree(root, ignore_errors=True)
+    os.makedirs(root)
+    try:
+        ctx = setup_case(case, root, base)
+        argv, env, _ = case_command(dict(case, outcome="ok"))
+        env["TMPDIR"] = ctx["tmp"]
+        env["WILD_VERIF_PHASELOG"] = os.path.join(root, "phaselog")
+        rc, _, err = run_wild(argv, ctx["w"], env)
+        if rc != 0:
+            raise RuntimeError(f"learning run failed: {rc} {err!r}")
+        points = []
+        with open(os.path.join(root, "phaselog")) as f:
+            for line in f:
+                p = line.rstrip("\n").split("\t")
+                if len(p) == 3 and p[2] == "main=true" and p[0].endswith("#1"):
+                    n = p[0][:-2]
+                    if n not in points:
+                        points.append(n)
+        return points
+    finally:
+        shutil.rmtree(root, ignore_errors=True)
+
+
+def panic_sweep_configs():
+    return [make_case("out", "pack", "none", "present", mode, th, "panic", kind)
+            for kind, mode, th in (("exe", "unlink", 4), ("shared", "default", 4),
+                                   ("exe", "default", 4), ("exe", "default", 1))]
+
+
 def exit_race_specs(thorough):
     specs = []
     names = NAMES if thorough else ["out", "libx.so.1"]
@@ -906,7 +956,14 @@ def main():
     t0 = time.time()
     with vlib.scratch("c19") as base:
         # ---- part A
-        results = vlib.pmap(run_case, [(c, base) for c in cases], chunksize=8)
+        cap = 780 if chk.thorough else 150
+        capped = False
+        results = []
+        for r in vlib.pmap_unordered(run_case, [(c, base) for c in cases], chunksize=8):
+            results.append(r)
+            if time.time() - t0 > cap:
+                capped = True
+                break
         tA = time.time() - t0
         for r in results:
             c = r["case"]
@@ -963,6 +1020,36 @@ def main():
         samples.append({"part": "C", "spec": eresults[0]["spec"], "rc": eresults[0]["rc"],
                         "touched": eresults[0]["touched"]})
         tC = time.time() - t2
+        # ---- part D (thorough): an injected panic at every phase point of the main thread
+        t3 = time.time()
+        dcases = []
+        n_points = {}
+        if chk.thorough:
+            cfgs = panic_sweep_configs()
+            learned = vlib.pmap(learn_main_points, [(c, base) for c in cfgs], procs=4, chunksize=1)
+            for c, pts in zip(cfgs, learned):
+                if len(pts) < 40:
+                    chk.machinery(f"part D: only {len(pts)} phase points learned for {c}")
+                n_points[f"{c['kind']}/{c['mode']}/t{c['threads']}"] = len(pts)
+                dcases += [dict(c, panic_at=p, any_rc=True) for p in pts]
+        dresults = vlib.pmap(run_case, [(c, base) for c in dcases], chunksize=4) if dcases else []
+        for r in dresults:
+            c = r["case"]
+            if isinstance(r["rc"], str):
+                chk.machinery(f"part D case {c}: {r['rc']}")
+            for k, v in r["counts"].items():
+                counters[k] = counters.get(k, 0) + 1
+            for key, what in r["viol"]:
+                chk.violation(key, what + f" [case {json.dumps(c, sort_keys=True)}]",
+                              {"part": "A", "case": c, "argv": r["argv"], "env": r["env"],
+                               "cwd": "w/ (see checks/c19.py setup_case)", "sources": SOURCES,
+                               "touched": r["touched"], "rc": r["rc"],
+                               "manual": manual_recipe(c, r["argv"], r["env"])})
+        if dresults:
+            samples.append({"part": "D", "case": dresults[len(dresults) // 2]["case"],
+                            "rc": dresults[len(dresults) // 2]["rc"],
+                            "touched": dresults[len(dresults) // 2]["touched"]})
+        tD = time.time() - t3
     # Every order of R/U steps of two links on the shared name must have been realised.
     want_orders = {"R0 U0 R1 U1", "R0 R1 U0 U1", "R0 R1 U1 U0"}
     full_orders = {o for o in orders if len(o.split()) == 4}
@@ -975,7 +1062,7 @@ def main():
         shapes.add(" ".join(x[0] + ren[x[1]] for x in t))
     if not want_orders <= shapes:
         chk.machinery(f"part B did not realise every order of the shared-name steps: {shapes}")
-    n_eval = len(results) + len(presults) + len(eresults)
+    n_eval = len(results) + len(presults) + len(eresults) + len(dresults)
     chk.coverage = {
         "evaluations": n_eval,
         "distinct_nontrivial": len(nontrivial),
@@ -985,12 +1072,17 @@ def main():
                 "link changed at least one path, distinct by configuration. part B: pause point "
                 "of link A x pause point of link B x who starts first x release order x serial/"
                 "overlapped release. part C: remove task held until exit / abort at each creator "
-                "point.",
+                "point. part D (thorough): panic at the first passage of every phase point of the main "
+                "thread x 4 write-path configurations.",
         "samples": samples,
-        "exhaustive": True,
+        "exhaustive": not capped,
+        "part_A_members": len(cases),
+        "part_A_capped_after_s": cap if capped else None,
         "process_runs": {"part_A_links": len(results), "part_B_histories": len(presults),
-                         "part_B_links": 2 * len(presults), "part_C_links": len(eresults)},
-        "wall_parts_s": {"A": round(tA, 1), "B": round(tB, 1), "C": round(tC, 1)},
+                         "part_B_links": 2 * len(presults), "part_C_links": len(eresults),
+                         "part_D_links": len(dresults)},
+        "part_D_main_thread_points": n_points,
+        "wall_parts_s": {"A": round(tA, 1), "B": round(tB, 1), "C": round(tC, 1), "D": round(tD, 1)},
         "distinct_touch_signatures": len(touched_classes),
         "shared_name_step_orders_realised": orders,
         "shared_name_order_shapes": sorted(shapes),
